@@ -901,6 +901,83 @@ def describe(case: dict[str, Any]) -> str:
             + ", ".join(norm_op({"kind": f[1], "name": f[2]}) for f in case["fail"]) + " fail (write returns False / remove raises)")
 
 
+F2F_KEY = "F2f:fs-seq:deps-meta-written-although-a-deps-file-write-failed"
+
+
+def deps_scenario(ctx: vlib.Ctx, proto: dict[str, Any]) -> None:
+    """Directed replay of the deps-cache witness (deps_cache_crash_safe_refuted) on the implementation, every tier:
+    run 1 with --cache-fine-grained; edit m.py; run 2 with the write of d.deps.json (only) failing; then
+    read_deps_cache's own acceptance checks applied to the real files."""
+    import glob
+    import hashlib
+    root = tempfile.mkdtemp(prefix="c04-deps-")
+    files1 = {"d.py": "def f() -> int:\n    return 1\n", "m.py": "from d import f\nx: int = f()\n"}
+    files2 = {"m.py": "from d import f\nx: int = f()\ndef g() -> int:\n    return f()\n"}
+    spec = {"trace": os.path.join(root, "t.jsonl"), "fail": [["coord", "write", "d.deps.json", 0]]}
+    orig_flags = flags
+    try:
+        w = os.path.join(root, "w")
+        os.makedirs(w)
+        write_files(w, files1, T1)
+        fl = lambda st, mo: orig_flags(st, mo) + ["--cache-fine-grained"]  # noqa: E731
+        globals()["flags"] = fl
+        st1, out1 = run_mypy(w, "fs", "seq", ["m.py", "d.py"])
+        cdir = (glob.glob(os.path.join(w, ".c", "3.*")) or [""])[0]
+        dfile = os.path.join(cdir, "d.deps.json")
+        if st1 != 0 or not os.path.exists(dfile):
+            ctx.broke("S", "deps scenario", f"run 1 with --cache-fine-grained failed: {st1} {out1[-300:]}")
+            return
+        old = open(dfile, "rb").read()
+        write_files(w, files2, T2)
+        st2, out2 = run_mypy(w, "fs", "seq", ["m.py", "d.py"], spec)
+        tr = read_trace(spec["trace"])
+        injected = any(e.get("injected") and e["name"] == "d.deps.json" for e in tr)
+        meta_written = any(e["kind"] == "write" and e["name"] == "@deps.meta.json" and e.get("ok") for e in tr)
+        meta = json.load(open(os.path.join(cdir, "@deps.meta.json")))
+        sys.path.insert(0, vlib.REPO)
+        try:
+            from mypy.util import hash_digest
+            new_hash = hash_digest(files2["m.py"].encode())
+        except Exception:
+            new_hash = hashlib.sha1(files2["m.py"].encode()).hexdigest()
+        finally:
+            sys.path.pop(0)
+        unchanged = open(dfile, "rb").read() == old
+        listed = meta.get("deps_meta", {}).get("d", {})
+        # read_deps_cache's two acceptance checks on the real files
+        snapshot_new = meta.get("snapshot", {}).get("m") == new_hash
+        mtimes_match = all(os.path.exists(os.path.join(cdir, v["path"])) and int(os.path.getmtime(os.path.join(cdir, v["path"]))) == v["mtime"]
+                           for v in meta.get("deps_meta", {}).values())
+        lacks_new_dep = b"m.g" not in open(dfile, "rb").read()
+        obs = {"run1_status": st1, "run2_status": st2, "failure_injected": injected, "deps_meta_written_in_run2": meta_written,
+               "snapshot_has_new_hash_of_m": snapshot_new, "all_listed_mtimes_match_files": mtimes_match,
+               "deps_meta_d": listed, "d_deps_json_unchanged": unchanged, "d_deps_json_lacks_m.g": lacks_new_dep}
+        ctx.add("evaluations", 2)
+        ctx.cov["deps_scenario"] = obs
+        replay = {"kind": "deps_scenario", "files_run1": files1, "edit": files2, "flags": fl("fs", "seq"), "spec": spec["fail"], "observations": obs}
+        accepted_stale = meta_written and snapshot_new and mtimes_match and unchanged and lacks_new_dep
+        model_refuted = not (proto["deps"]["meta_last"] and proto["deps"]["meta_skipped_on_error"])
+        if not injected:
+            ctx.broke("S", "deps scenario", "the failure of the d.deps.json write was not injected: " + json.dumps(obs))
+        elif model_refuted:
+            if accepted_stale:
+                ctx.violation(F2F_KEY, "write of d.deps.json fails, @deps.meta.json is written anyway with the new snapshot and the old, still "
+                              "matching mtime of d.deps.json: read_deps_cache's checks accept the OLD deps of d (no dependency of m.g) "
+                              "against the NEW metas", replay)
+            else:
+                ctx.broke("S", "deps scenario", "deps_cache_crash_safe_decided is refuted in the model but the directed replay does "
+                          "not reproduce the witness on the implementation: " + json.dumps(obs), replay)
+        else:
+            if meta_written and snapshot_new and mtimes_match and unchanged:
+                ctx.violation("F2f-regression:fs-seq:deps-meta-written-although-a-deps-file-write-failed",
+                              "the generated protocol says the deps meta is skipped after a failed deps-file write, but the implementation "
+                              "wrote an acceptable deps meta next to the old deps file", replay)
+        ctx.log("S: deps-cache directed scenario:", json.dumps(obs))
+    finally:
+        globals()["flags"] = orig_flags
+        shutil.rmtree(root, ignore_errors=True)
+
+
 def run(ctx: vlib.Ctx) -> None:
     ctx.cov["rule"] = ("2-step histories (run, edit, faulty run) x every position between two store operations of every "
                        "process of the faulty run (kill of the process / of the whole process group) x every single "
@@ -943,6 +1020,13 @@ def run(ctx: vlib.Ctx) -> None:
                     "FAILS the side condition: current_snapshot_order_decided proves it refuted"
                     + (" (F2d: needs plugin edit + kill + plugin revert; enumerated in the thorough tier)"
                        if proto["snapshot_order"] == ["SnGraph", "SnWrite"] else ""))
+        ctx.prove("C04/PropertiesDeps.v", ["C04", "gen", "lib"])
+        ctx.cov["deps_cache_protocol"] = proto["deps"]
+        ctx.log("P: build.write_deps_cache", proto["deps"],
+                "passes the side condition: deps_cache_crash_safe applies" if proto["deps"]["meta_last"] and proto["deps"]["meta_skipped_on_error"]
+                else "fails the side condition: deps_cache_crash_safe_decided proves it refuted (see notes/C04-findings.json; "
+                     "replayed by the directed deps scenario)")
+        deps_scenario(ctx, proto)
     # ---- C + S
     names = QUICK_HISTORIES if ctx.quick else [h["name"] for h in HISTORIES]
     setups = search(ctx, names, CONFIGS, pairs=not ctx.quick, both_scopes=not ctx.quick)
@@ -965,6 +1049,10 @@ def run(ctx: vlib.Ctx) -> None:
 
 def replay(ctx: vlib.Ctx, path: str) -> None:
     data = json.load(open(path))["replay"]
+    if data.get("kind") == "deps_scenario":
+        from extractors import t04
+        deps_scenario(ctx, t04.extract())
+        return
     case = data["case"]
     hist = data["history"]
     root = tempfile.mkdtemp(prefix="c04-replay-")
